@@ -223,6 +223,9 @@ func checkC02(c *Ctx) {
 		return false
 	})
 
+	// nothing a claim reports takes effect before the quorum: the observed external height is written only behind it
+	c.includeKeys("quorum-state", "C13", rulesIn("C13.timeout-guard"), func(rule, key string) bool { return strings.Contains(key, "height-writer") })
+
 	// ---- C02.votes-writers ----------------------------------------------------
 	r.Min("C02.votes-writers", 3)
 	ws := c.Writers(c.LiveReach(), "", "ExternalEventVoteRecordKey")
